@@ -50,6 +50,12 @@ def IOCounts (net : Net W) : Bool :=
   net.inputs.length == (net.nodes.filter fun nd => nd.isSensor).length &&
   net.outputs.length == (net.nodes.filter fun nd => nd.kind == Kind.output).length
 
+/-- the marks vector covers `allNodes` -/
+def marksFit (net : Net W) (vis : List Bool) : Bool := vis.length == net.nodes.length
+
+/-- no output node carries a mark (true of a fresh network and after every completed query) -/
+def outsUnmarked (net : Net W) (vis : List Bool) : Bool := net.outputs.all fun o => !marked vis o
+
 /-! ### the predicate on the implementation's answers -/
 
 /-- one answered query: the cap passed (`≤ 0` = none; `MaxActivationDepth()` is recorded as cap 0), the returned
@@ -60,6 +66,9 @@ structure Query where
   err : DErr
   marks : List Bool
 deriving Repr
+
+/-- a model answer in the shape of a dumped query -/
+def toQuery (c : Int) (r : TopRes) : Query := ⟨c, r.depth, r.err, r.vis⟩
 
 /-- what query `q` must answer when the uncapped depth of the network is `d0` -/
 def queryOk (n : Nat) (d0 : Int) (q : Query) : Bool :=
